@@ -50,6 +50,17 @@ func shortType(t string) string {
 // coveredField: is a value covered by a commitment opening, a Feldman share check or a zero-knowledge
 // proof, so that altering it must lead to an abort blaming exactly the deviator (DESIGN.md appendix B)?
 func coveredField(typ, field string) bool {
+	return coveredFieldKind(typ, field, "")
+}
+
+// coveredFieldKind: as coveredField, for a given alteration kind. A coordinated commit/reveal deviation
+// opens its commitment correctly; it is attributable only where a proof or share check is attached to
+// the committed values. The U_i/T_i commitments of ECDSA signing rounds 7/8 have none (GG18 phase 5
+// checks only the aggregate U == T, and blames nobody / itself).
+func coveredFieldKind(typ, field, kind string) bool {
+	if strings.HasPrefix(kind, "commit:") && strings.HasSuffix(typ, "SignRound7Message") {
+		return false
+	}
 	switch field {
 	case "commitment", "v_commitment", "de_commitment", "v_decommitment", "share",
 		"dlnproof_1", "dlnproof_2", "modProof", "facProof", "paillier_proof",
@@ -307,6 +318,11 @@ func culpritNodes(net *sim.Net, err *tss.Error) []int {
 
 // judgeHonest applies C05's clauses to the honest parties' view at quiescence.
 func judgeHonest(x *runCtx, dev int, covered bool, mode string) *runProblem {
+	if mode == "C06" {
+		// C06 only asks that every call returns and nothing panics (both are detected before we get here);
+		// what a run produces under boundary values / routing faults is C05's subject, not C06's
+		return nil
+	}
 	net := x.net
 	p := x.p
 	honest := map[int]bool{}
@@ -487,7 +503,7 @@ func runFault(c faultCase, mode string) ev.Outcome {
 	}
 	fr.install()
 	x.net.Run(sim.FIFO{}, 200000)
-	covered := coveredField(c.F.MsgType, c.F.Field.Name) && (c.F.Kind == "+1" || c.F.Kind == "rand" || c.F.Kind == "other" || c.F.Kind == "remove" || strings.HasPrefix(c.F.Kind, "commit:") || strings.HasPrefix(c.F.Kind, "bits-"))
+	covered := coveredFieldKind(c.F.MsgType, c.F.Field.Name, c.F.Kind) && (c.F.Kind == "+1" || c.F.Kind == "rand" || c.F.Kind == "other" || c.F.Kind == "remove" || strings.HasPrefix(c.F.Kind, "commit:") || strings.HasPrefix(c.F.Kind, "bits-"))
 	out := ev.Outcome{Label: fmt.Sprintf("%s %s.%s kind=%s dev=%d", c.Run.Proto, shortType(c.F.MsgType), c.F.Field.Name, c.F.Kind, c.F.Deviator)}
 	out.Nontrivial = fr.consumed > 0
 	if fr.applied == 0 || fr.na {
